@@ -33,6 +33,7 @@ fn bounds(tier: Tier) -> Vec<(Fam, u8, Vec<RCfg>, usize, usize)> {
             (Fam::Txt, 1, vec![rc(1, true), rc(2, false)], 2, 1),
             (Fam::Map, 1, vec![rc(1, true), rc(2, true)], 3, 1),
             (Fam::Rtx, 0, vec![cu(1, true, true), cu(2, true, false)], 3, 0),
+            (Fam::Nest, 0, vec![rc(1, true), rc(2, true)], 3, 1),
         ],
         Tier::Thorough => vec![
             (Fam::Txt, 0, vec![rc(1, true), rc(2, true)], 4, 2),
